@@ -210,14 +210,14 @@ MODS = ["self._keys[*]", "self._d{*}", "self._pos{*}"]
 UNCHANGED = "keys_unchanged(self) and same_vals_except(self, None)"
 
 contract(F, "odict.__setitem__", "C39,C37", params=dict(P, key=K, val=V_), requires=["inv(self)"], modifies=MODS,
-         ghost={"after": {"self._keys.append(key)": _g_after_append}},
+         ghost={"after": {r"re:self\._keys\.append\(.*\)": _g_after_append}},
          ensures=["inv(self)", "key in self and self[key] == val", "same_vals_except(self, key)",
                   # an existing key keeps its position; a new key goes to the end
                   "implies(old(key in self), keys_unchanged(self))",
                   "implies(not old(key in self), is_concat(self._keys, old_keys(self), [key]))"],
          note="`if not hasattr(self, '_keys')` branch: hasattr assumed true")
 contract(F, "odict.__delitem__", "C39,C37", params=dict(P, key=K), requires=["inv(self)"], modifies=MODS,
-         ghost={"after": {"self._keys.remove(key)": _g_after_remove}},
+         ghost={"after": {r"re:self\._keys\.remove\(.*\)": _g_after_remove}},
          ensures=["inv(self)", "key not in self", "old(key in self)", "same_vals_except(self, key)",
                   "removed_at(self._keys, old_keys(self), old_pos(self, key))"],
          raises={"KeyError": ["old(key not in self)", UNCHANGED]})
@@ -226,7 +226,7 @@ contract(F, "odict.append", "C39", params=dict(P, key=K, item=V_), requires=["in
                   "is_concat(self._keys, old_keys(self), [key])"],
          raises={"KeyError": ["old(key in self)", UNCHANGED]})
 contract(F, "odict.insert", "C39,C37", params=dict(P, index=INT, key=K, val=V_), requires=["inv(self)"],
-         modifies=MODS, ghost={"after": {"self._keys.insert(index, key)": _g_after_insert}},
+         modifies=MODS, ghost={"after": {r"re:self\._keys\.insert\(.*\)": _g_after_insert}},
          ensures=["inv(self)", "key in self and self[key] == val", "same_vals_except(self, key)",
                   "not old(key in self)",
                   # Python's list.insert index clamping
@@ -253,7 +253,7 @@ contract(F, "odict.popitem", "C39", params=dict(P), requires=["inv(self)"], modi
          returns=lambda E, env: Tup(_d(E, env["self"]).kt, _d(E, env["self"]).vt))
 
 contract(F, "odict.pop", "C39", params=dict(P, key=K), requires=["inv(self)"], modifies=MODS,
-         ghost={"after": {"self._keys.remove(key)": _g_after_remove}},
+         ghost={"after": {r"re:self\._keys\.remove\(.*\)": _g_after_remove}},
          ensures=["inv(self)", "key not in self", "old(key in self)", "same_vals_except(self, key)",
                   "result == old(self[key])", "removed_at(self._keys, old_keys(self), old_pos(self, key))"],
          raises={"KeyError": ["old(key not in self)", UNCHANGED]},
@@ -261,7 +261,7 @@ contract(F, "odict.pop", "C39", params=dict(P, key=K), requires=["inv(self)"], m
          note="called without a default")
 
 contract(F, "odict.pop", "C39", params=dict(P, key=K, default=("vararg", (V_,))), requires=["inv(self)"],
-         modifies=MODS, ghost={"after": {"self._keys.remove(key)": _g_after_remove}},
+         modifies=MODS, ghost={"after": {r"re:self\._keys\.remove\(.*\)": _g_after_remove}},
          ensures=["inv(self)", "key not in self", "same_vals_except(self, key)",
                   "implies(old(key in self), result == old(self[key]) and "
                   "removed_at(self._keys, old_keys(self), old_pos(self, key)))",
